@@ -234,7 +234,7 @@ KeyRef key_rsa_fresh(int bits)
 	return k;
 }
 
-const int RSA_POOL_BITS[] = {512, 1024, 2040, 2047, 2048, 3072, 4096, 2056, 2184, 3584, 4088};
+const int RSA_POOL_BITS[] = {512, 1024, 2040, 2047, 2048, 3072, 4096, 2056, 2184, 3584, 4088, 2052, 2050, 3076};
 const int N_RSA_POOL_BITS = (int)ARRAY_LEN(RSA_POOL_BITS);
 const int RSA_POOL_PER_SIZE = 2;
 
@@ -264,6 +264,11 @@ void rsa_pool_ensure(bool verbose)
 				continue;
 			sim_entropy_point(mix64(0x525341, (uint64_t)RSA_POOL_BITS[b] * 16 + i));
 			EVP_PKEY *k = EVP_PKEY_Q_keygen(NULL, NULL, "RSA", (size_t)RSA_POOL_BITS[b]);
+			if (k && EVP_PKEY_get_bits(k) != RSA_POOL_BITS[b]) {
+				// (OpenSSL rounds some odd sizes down: the model would reason about a size the key does not have)
+				fprintf(stderr, "jwtsim: RSA pool keygen gave %d bits for %d\n", EVP_PKEY_get_bits(k), RSA_POOL_BITS[b]);
+				_exit(2);
+			}
 			if (!k) {
 				fprintf(stderr, "jwtsim: RSA pool keygen failed (%d)\n", RSA_POOL_BITS[b]);
 				_exit(2);
